@@ -108,7 +108,7 @@ func (repeater *Repeater) ReadLine() (line string, err error) {
 		if err2 = repeater.output.Printf(inPrompt); err2 != nil {
 			return "", err2
 		}
-		repeater.mode = outMode
+		repeater.mode = inMode
 	}
 	if err2 = repeater.output.Printf(line); err2 != nil {
 		return "", err2
